@@ -11,7 +11,7 @@ for src in probe/*.c; do
   out="bin/$(basename "${src%.c}")"
   if [ ! -x "$out" ] || [ "$src" -nt "$out" ]; then
     flags="-static -O1 -Wall"
-    case "$src" in */sysrun.c) flags="-static -nostdlib -ffreestanding -fno-builtin -fno-stack-protector -O1 -Wall" ;; esac
+    case "$src" in */sysrun.c) flags="-static -nostdlib -ffreestanding -fno-builtin -fno-stack-protector -O1 -Wall" ;; */threads.c) flags="-static -O1 -Wall -pthread" ;; esac
     gcc $flags -o "$out.tmp.$$" "$src" && mv -f "$out.tmp.$$" "$out"
   fi
 done
